@@ -1,1 +1,307 @@
--- property theorems of C16 (not built yet)
+/-
+  C16 — output files hold what was computed and reload to the same model.
+  Property theorems about `TaurexModel/Output.lean` (the definitions `driver_c16` executes).
+  Storage theorems hold for every float payload type `α` (no arithmetic on it is used).
+-/
+import Proofs.C16Lemmas
+import Mathlib.Analysis.Calculus.Deriv.Inv
+import Mathlib.Tactic.FieldSimp
+import Mathlib.Tactic.Ring
+import Mathlib.Tactic.Positivity
+
+namespace Taurex.C16
+open Taurex.Output
+
+section storage
+variable {α : Type} [OfInt α]
+
+/-- **load ∘ store = id on well-formed dictionaries.** Every scalar, array (dimension ≥ 1), string, clean
+string list and nested dictionary is read back unchanged, under the same names in the same nesting:
+the group written for `d` has exactly the entry names of `d` (one entry per key, in order) and decodes to `d`. -/
+theorem load_store (d : List (String × Value α)) (h : WF (Value.dict d) = true) :
+    ∃ ch, store (Value.dict d) = .ok (.group ch) ∧ ch.map Prod.fst = d.map Prod.fst ∧
+      load (.group ch) = Value.dict d := by
+  obtain ⟨ch, hc, hl, hk⟩ := storeEntries_wf d h
+  exact ⟨ch, by simp [store, hc], hk, by simp [load, hl]⟩
+
+/-- the same as an equation about `store` followed by `load` -/
+theorem load_store_eq (v : Value α) (h : WF v = true) : (store v).map load = .ok v := by
+  cases v <;> simp [WF] at h
+  rename_i d
+  obtain ⟨ch, hc, -, hl⟩ := load_store d h
+  simp [hc, Except.map, hl]
+
+example : WF (Value.dict [("T", .float (1500.0 : Float)), ("n", .int 3), ("flag", .bool true),
+    ("grid", .array ⟨[2, 2], .floats [1.0, 2.0, 3.0, 4.0]⟩), ("name", .str [72, 50, 79]),
+    ("gases", .list [.str [72, 50], .str [72, 101]]),
+    ("sub", .dict [("mask", .array ⟨[2], .bools [true, false]⟩), ("idx", .array ⟨[1], .ints [7]⟩)])]) = true := by
+  rfl
+
+/-- **lists and tuples:** a dictionary whose lists/tuples are homogeneous (numpy builds one numeric array from
+them) or clean string sequences is stored one entry per key, under the same names, and is read back as its
+canonical form `canon`: tuple ↦ list, numeric list ↦ the ndarray of the same numbers and shape, 0-d array ↦
+scalar; everything else unchanged. -/
+theorem load_store_canon (d : List (String × Value α)) (h : regEntries d = true) :
+    ∃ ch, store (Value.dict d) = .ok (.group ch) ∧ ch.map Prod.fst = d.map Prod.fst ∧
+      load (.group ch) = canon (Value.dict d) := by
+  obtain ⟨ch, hc, hl, hk⟩ := storeEntries_reg d h
+  exact ⟨ch, by simp [store, hc], hk, by simp [load, hl, canon]⟩
+
+/-- **a flat numeric list / tuple is read back as the 1-D array of the same numbers** (same length, same order,
+same dtype) -/
+theorem numeric_list_same_numbers (k k' : String) (l : List Int) (h : l ≠ []) (x : List α) (hx : x ≠ []) :
+    (store (Value.dict [(k, .list (l.map .int)), (k', .tuple (x.map .float))] : Value α)).map load =
+      .ok (Value.dict [(k, .array ⟨[l.length], .ints l⟩), (k', .array ⟨[x.length], .floats x⟩)]) := by
+  simp [store, storeEntries, storeThing_int_list k l h, storeThing_float_tuple k' x hx, Except.map, load,
+    loadEntries]
+
+/-- on well-formed dictionaries the canonical form is the dictionary itself -/
+theorem canon_wf (v : Value α) (h : WF v = true) : canon v = v := by
+  cases v <;> simp [WF] at h
+  rename_i d
+  simp [canon, canonEntries_of_wf d h]
+
+example : regEntries [("a", Value.list [.int 1, .int 2, .bool true]), ("b", .tuple [.str [72], .str [101]]),
+    ("c", .list [.list [.int 1, .int 2], .tuple [.int 3, .int 4]]), ("z", .array (⟨[], .ints [5]⟩ : Arr Float))] = true := by
+  rfl
+example : canon (Value.dict [("a", Value.list [.int 1, .int 2, .bool true]), ("b", .tuple [.str [72], .str [101]]),
+    ("c", .list [.list [.int 1, .int 2], .tuple [.int 3, .int 4]]), ("z", .array (⟨[], .ints [5]⟩ : Arr Float))]) =
+    Value.dict [("a", .array ⟨[3], .ints [1, 2, 1]⟩), ("b", .list [.str [72], .str [101]]),
+      ("c", .array ⟨[2, 2], .ints [1, 2, 3, 4]⟩), ("z", .int 5)] := by
+  rfl
+
+/-- **exactly the unsupported inputs raise.** `store` fails iff its argument is not a dictionary, or the
+traversal of `store_thing` reaches an unsupported type (`None`, `np.float32`, …) or a string list with a
+non-string element. -/
+theorem store_error_iff (v : Value α) :
+    (∃ e, store v = .error e) ↔ ¬ (isDict v = true ∧ supported v = true) := by
+  cases v <;> try (simp [store, isDict]; done)
+  rename_i d
+  have h := storeEntries_ok_iff d
+  unfold IsOk at h
+  cases hd : storeEntries d with
+  | ok ch =>
+    rw [hd] at h
+    have : supportedEntries d = true := h.1 ⟨ch, rfl⟩
+    simp [store, hd, isDict, supported, this]
+  | error e =>
+    rw [hd] at h
+    have : ¬ supportedEntries d = true := fun hs => by
+      obtain ⟨x, hx⟩ := h.2 hs
+      cases hx
+    simp [store, hd, isDict, supported, this]
+
+example : (∃ e, store (Value.dict [("a", .float (1.0 : Float)), ("b", .list [.float 2.0, .unsupported])]) = .error e) :=
+  ⟨.unsupported, rfl⟩
+example : supported (Value.dict [("a", .list [.array ⟨[2], .floats [(1.0 : Float), 2.0]⟩, .array ⟨[1], .floats [3.0]⟩])]) = true := by
+  rfl
+
+/-- **a list of differently shaped arrays is stored element by element** (regression of the ragged-list
+defect): `key ↦ [a₀, a₁, …]` with unequal shapes creates exactly `key0 ↦ a₀, key1 ↦ a₁, …`. -/
+theorem store_ragged_arrays (k : String) (as : List (Arr α)) (h : stack as = none) :
+    storeThing k (Value.list (as.map Value.array)) = .ok (expandArrays k 0 as) := by
+  unfold storeThing
+  rw [if_neg (by rw [any_isStr_arrays]; simp), toNdList_arrays]
+  simp [h, storeSeq_arrays]
+
+example : stack [(⟨[2], .floats [(1.0 : Float), 2.0]⟩ : Arr Float), ⟨[3], .floats [1.0, 2.0, 3.0]⟩] = none := by
+  rfl
+
+omit [OfInt α] in
+/-- `HDF5OutputGroup.write_array(name, [a₀, a₁, …])` writes `name0 ↦ a₀, name1 ↦ a₁, …` -/
+theorem writeArray_list (k : String) (as : List (Arr α)) :
+    writeArray k (Value.list (as.map Value.array)) = some (expandArrays k 0 as) := by
+  simp [writeArray, writeArray_go_arrays]
+
+/-- **string arrays of any length and alphabet are read back unchanged** (the former defect K3: ASCII-only
+'S64' cells). The only remaining restriction is the one `WF` states: an element must not end in U+0000,
+because a fixed-width cell does not return trailing NUL bytes — and that restriction is necessary. -/
+theorem string_array_faithful (k : String) (strs : List (List Nat)) (hne : strs ≠ [])
+    (hc : ∀ s ∈ strs, cleanStr s = true) :
+    (store (Value.dict [(k, .list (strs.map .str))] : Value α)).map load =
+      .ok (Value.dict [(k, .list (strs.map .str))]) := by
+  apply load_store_eq
+  simp only [WF, wfEntries, wfVal, Bool.and_true, Bool.and_eq_true, Bool.not_eq_true']
+  constructor
+  · cases strs with
+    | nil => exact absurd rfl hne
+    | cons a as => rfl
+  · rw [List.all_eq_true]
+    intro v hv
+    obtain ⟨s, hs, rfl⟩ := List.mem_map.1 hv
+    exact hc s hs
+
+theorem string_array_trailing_nul_dropped :
+    (store (Value.dict [("k", .list [.str [65, 0]])] : Value α)).map load = .ok (Value.dict [("k", .list [.str [65]])]) := by
+  rfl
+
+example : ∀ s ∈ [List.replicate 65 65, [84, 95, 233, 113], []], cleanStr s = true := by decide
+
+/-- **a component written with all its constructor keywords reloads with the same keyword values.**
+`entries` is what `write()` stores besides the type string; `ctorKw` are the keyword arguments of the
+constructor (`get_klass_args`). Every keyword that was written (with a well-formed value) is passed back
+with its value, in constructor order; the class name is the one written. -/
+theorem reload_same_kwargs (typeKey : String) (klass : List Nat) (entries : List (String × Value α))
+    (ctorKw : List String) (hwf : wfEntries entries = true) (hk : ∀ kw ∈ ctorKw, kw ≠ typeKey) :
+    reloadComponent typeKey ctorKw (writeComponent typeKey klass entries) =
+      .ok (some (.str klass), ctorKw.filterMap (fun kw => (entries.lookup kw).map (fun v => (kw, v)))) := by
+  have hwf' : wfEntries ((typeKey, Value.str klass) :: entries) = true := by simp [wfEntries, wfVal, hwf]
+  obtain ⟨ch, hc, hl, -⟩ := storeEntries_wf _ hwf'
+  unfold reloadComponent writeComponent store
+  simp only [hc]
+  rw [loadKwargs_eq, hl]
+  have h1 : (ch.lookup typeKey).map load = some (.str klass) := by
+    rw [← lookup_loadEntries, hl]; simp
+  rw [h1]
+  congr 2
+  apply List.filterMap_congr
+  intro kw hkw
+  have : (kw == typeKey) = false := by simpa using hk kw hkw
+  simp [List.lookup_cons, this]
+
+/-- **a constructor keyword that `write()` omits is not passed on reload** (the constructor default is
+used: the defect class "write omits a constructor argument"). -/
+theorem reload_omitted_kwarg (typeKey : String) (klass : List Nat) (entries : List (String × Value α))
+    (ctorKw : List String) (hwf : wfEntries entries = true) (hk : ∀ kw ∈ ctorKw, kw ≠ typeKey)
+    (kw : String) (hom : entries.lookup kw = none) :
+    ∀ c kws, reloadComponent typeKey ctorKw (writeComponent typeKey klass entries) = .ok (c, kws) →
+      kw ∉ kws.map Prod.fst := by
+  intro c kws h
+  rw [reload_same_kwargs typeKey klass entries ctorKw hwf hk] at h
+  cases h
+  intro hm
+  simp only [List.mem_map, List.mem_filterMap] at hm
+  obtain ⟨⟨k', v⟩, ⟨a, _, ha⟩, rfl⟩ := hm
+  cases hl : entries.lookup a with
+  | none => simp [hl] at ha
+  | some w =>
+    simp [hl] at ha
+    obtain ⟨rfl, rfl⟩ := ha
+    simp [hom] at hl
+
+example : reloadComponent "temperature_type" ["T_irr", "kappa_irr", "T_int"]
+    (writeComponent "temperature_type" [71] [("T_irr", .float (1500.0 : Float)), ("kappa_irr", .float 0.01)]) =
+    .ok (some (.str [71]), [("T_irr", .float 1500.0), ("kappa_irr", .float 0.01)]) := by
+  rfl
+
+end storage
+
+section spectrum
+variable {α : Type} [Add α] [Sub α] [Mul α] [Div α] [Neg α] [LT α] [DecidableLT α]
+  [OfNat α 0] [OfNat α 2] [OfNat α 10000]
+variable (grid width : List α) (bd : List α → List α → List α)
+  (bdTau : List α → List (List α) → List (List α)) (size : Nat) (wn flux : List α) (tau : List (List α))
+
+/-- **optical depths are present according to the requested output size** (FluxBinner, SimpleBinner):
+`binned_tau` ⇔ size > lighter, `native_tau` ⇔ size > light. -/
+theorem tau_keys (kind : BinnerKind) (hk : kind ≠ .native) :
+    ("binned_tau" ∈ keysOf (spectrumOutput kind grid width bd bdTau size wn flux tau) ↔ size > sizeLighter) ∧
+    ("native_tau" ∈ keysOf (spectrumOutput kind grid width bd bdTau size wn flux tau) ↔ size > sizeLight) := by
+  have h13 : sizeLighter = 1 := rfl
+  have h3 : sizeLight = 3 := rfl
+  cases kind <;> simp at hk <;>
+  · simp only [spectrumOutput, baseOutput, keysOf, h13, h3]
+    by_cases h1 : size > 1 <;> by_cases h2 : size > 3 <;> simp [h1, h2] <;> omega
+
+/-- NativeBinner: no binned optical depth, `native_tau` ⇔ size > light -/
+theorem tau_keys_native :
+    "binned_tau" ∉ keysOf (spectrumOutput .native grid width bd bdTau size wn flux tau) ∧
+    ("native_tau" ∈ keysOf (spectrumOutput .native grid width bd bdTau size wn flux tau) ↔ size > sizeLight) := by
+  have h3 : sizeLight = 3 := rfl
+  simp only [spectrumOutput, keysOf, h3]
+  by_cases h2 : size > 3 <;> simp [h2]
+
+example : sizeHeavy > sizeLight ∧ sizeLight > sizeLighter ∧ ¬ sizeLighter > sizeLighter := by decide
+
+/-- **stored wavelength grids are 10000/wavenumber** (native grid of every binner, binned grid of the binning
+binners) -/
+theorem wl_of_wn (kind : BinnerKind) :
+    let out := spectrumOutput kind grid width bd bdTau size wn flux tau
+    out.lookup "native_wngrid" = some (.vec wn) ∧
+    out.lookup "native_wlgrid" = some (.vec (wn.map (fun x => 10000 / x))) ∧
+    (kind ≠ .native → out.lookup "binned_wngrid" = some (.vec grid) ∧
+      out.lookup "binned_wlgrid" = some (.vec (grid.map (fun x => 10000 / x)))) := by
+  cases kind <;> simp [spectrumOutput, baseOutput, wlOfWn, List.lookup] <;>
+    (split <;> try split) <;> simp [List.lookup]
+
+/-- **binned wavelength widths are the wavenumber widths of the same bins converted at the bin centre:**
+`binned_wlwidth[i] = 10000·binned_wnwidth[i] / binned_wngrid[i]²`, where `binned_wngrid`, `binned_wnwidth` are
+the binner's own bin centres and widths. -/
+theorem wlwidth_formula (kind : BinnerKind) (hk : kind ≠ .native) :
+    let out := spectrumOutput kind grid width bd bdTau size wn flux tau
+    out.lookup "binned_wngrid" = some (.vec grid) ∧ out.lookup "binned_wnwidth" = some (.vec width) ∧
+    out.lookup "binned_wlwidth" = some (.vec (List.zipWith (fun g w => 10000 * w / (g * g)) grid width)) := by
+  have hz : wnwidthToWlwidth grid width = List.zipWith (fun g w => 10000 * w / (g * g)) grid width := rfl
+  cases kind <;> simp at hk <;>
+  · simp [spectrumOutput, baseOutput, List.lookup, hz]
+    (split <;> try split) <;> simp [List.lookup]
+
+/-- **the stored binned spectrum is the binner applied to the stored native spectrum** (and, when present,
+the binned optical depth is the binner applied to the optical depth) -/
+theorem binned_is_bindown (kind : BinnerKind) (hk : kind ≠ .native) :
+    let out := spectrumOutput kind grid width bd bdTau size wn flux tau
+    out.lookup "native_wngrid" = some (.vec wn) ∧ out.lookup "native_spectrum" = some (.vec flux) ∧
+    out.lookup "binned_spectrum" = some (.vec (bd wn flux)) ∧
+    (size > sizeLighter → out.lookup "binned_tau" = some (.mat (bdTau wn tau))) ∧
+    (size > sizeLight → out.lookup "native_tau" = some (.mat tau)) := by
+  have h13 : sizeLighter = 1 := rfl
+  have h3 : sizeLight = 3 := rfl
+  cases kind <;> simp at hk <;>
+  · simp only [spectrumOutput, baseOutput, h13, h3]
+    by_cases h1 : size > 1 <;> by_cases h2 : size > 3 <;> simp [h1, h2, List.lookup] <;> omega
+
+end spectrum
+
+section real
+
+/-- over ℝ the wavelength/wavenumber conversion is its own inverse on non-zero grids -/
+theorem wlOfWn_involutive (wn : List ℝ) (h : ∀ x ∈ wn, x ≠ 0) : wlOfWn (wlOfWn wn) = wn := by
+  unfold wlOfWn
+  rw [List.map_map]
+  conv_rhs => rw [← List.map_id wn]
+  apply List.map_congr_left
+  intro x hx
+  have := h x hx
+  simp only [Function.comp, id]
+  field_simp
+
+/-- "converted at the bin centre": `10000·w/wn²` is the wavenumber width times the local rate of change
+`|d(10000/ν)/dν|` at the bin centre `ν = wn` -/
+theorem wlwidth_is_centre_conversion (wn w : ℝ) (h : wn ≠ 0) :
+    wlwidthAt wn w = w * |deriv (fun x : ℝ => 10000 / x) wn| := by
+  have hd : deriv (fun x : ℝ => 10000 / x) wn = -(10000 / wn ^ 2) := by
+    have := (hasDerivAt_inv h).const_mul (10000 : ℝ)
+    have e : (fun x : ℝ => 10000 / x) = fun x => 10000 * x⁻¹ := by funext x; rw [div_eq_mul_inv]
+    rw [e, this.deriv]; ring
+  rw [hd, abs_neg, abs_of_nonneg (by positivity)]
+  unfold wlwidthAt
+  rw [pow_two]; ring
+
+/-- it never exceeds, and for narrow bins equals to second order, the exact wavelength extent of the bin
+`[wn - w/2, wn + w/2]`: `10000/(wn-w/2) - 10000/(wn+w/2) = wlwidthAt wn w · wn²/(wn² - w²/4)` -/
+theorem wlwidth_vs_exact (wn w : ℝ) (hw : 0 ≤ w) (h : w / 2 < wn) :
+    10000 / (wn - w / 2) - 10000 / (wn + w / 2) = wlwidthAt wn w * (wn ^ 2 / (wn ^ 2 - w ^ 2 / 4)) ∧
+    wlwidthAt wn w ≤ 10000 / (wn - w / 2) - 10000 / (wn + w / 2) := by
+  have h1 : 0 < wn - w / 2 := by linarith
+  have h2 : 0 < wn + w / 2 := by linarith
+  have h3 : 0 < wn := by linarith
+  have h4 : 0 < wn ^ 2 - w ^ 2 / 4 := by nlinarith
+  have e : 10000 / (wn - w / 2) - 10000 / (wn + w / 2) = wlwidthAt wn w * (wn ^ 2 / (wn ^ 2 - w ^ 2 / 4)) := by
+    unfold wlwidthAt
+    have : wn ^ 2 - w ^ 2 / 4 = (wn - w / 2) * (wn + w / 2) := by ring
+    have hp1 : 0 < (wn - w / 2) * (wn + w / 2) := mul_pos h1 h2
+    have hp2 : 0 < wn * wn * ((wn - w / 2) * (wn + w / 2)) := by positivity
+    rw [this, div_sub_div _ _ h1.ne' h2.ne', div_mul_div_comm, div_eq_div_iff hp1.ne' hp2.ne']
+    ring
+  refine ⟨e, ?_⟩
+  rw [e]
+  have hq : 1 ≤ wn ^ 2 / (wn ^ 2 - w ^ 2 / 4) := by
+    rw [le_div_iff₀ h4]; nlinarith [sq_nonneg w]
+  have hp : 0 ≤ wlwidthAt wn w := by unfold wlwidthAt; positivity
+  nlinarith
+
+example : (2 : ℝ) / 2 < 10 ∧ (0 : ℝ) ≤ 2 := by norm_num
+
+end real
+
+end Taurex.C16
